@@ -303,6 +303,8 @@ HISTORIES = {
     "same_data": (["chr9.4M.ont.sim.polya.bam"], ["chr9.4M.ont.sim.polya.bam"], "nanopore"),
     "single_then_multi_file": (["half1.bam"], ["half1.bam", "half2.bam"], "nanopore"),
     "polya_rich_then_polya_free": (["polyaonly.bam"], ["mono.bam"], "pacbio_ccs"),
+    # the joint run is processed a second time with `--resume -o <out>` before B is compared (parameters come back from <out>/.params)
+    "multi_file_then_single_resumed": (["half1.bam", "half2.bam"], ["half1.bam"], "nanopore"),
 }
 
 
@@ -332,6 +334,15 @@ def _cli_history(threads=1, history="same_data"):
                                cwd=d, env=env, capture_output=True, text=True, timeout=600)
             if p.returncode != 0:
                 return ["isoquant exited %d on %s: %s" % (p.returncode, y, p.stderr[-300:])]
+        if history.endswith("_resumed"):
+            p = subprocess.run([sys.executable, os.path.join(front.REPO, "isoquant.py"), "--resume", "-o", "out2"],
+                               cwd=d, env=env, capture_output=True, text=True, timeout=600)
+            if p.returncode != 0:
+                return ["isoquant --resume exited %d: %s" % (p.returncode, p.stderr[-300:])]
+        extra = sorted(f for f in os.listdir(os.path.join(d, "out2", "B")) if os.path.isfile(os.path.join(d, "out2", "B", f))
+                       and not os.path.exists(os.path.join(d, "out1", "B", f)))
+        if extra:
+            problems.append("files of B that a run of B alone does not write: %s" % extra[:6])
         names = sorted(f for f in os.listdir(os.path.join(d, "out1", "B")) if os.path.isfile(os.path.join(d, "out1", "B", f)))
         for name in names:
             a, b = os.path.join(d, "out2", "B", name), os.path.join(d, "out1", "B", name)
@@ -358,7 +369,7 @@ def replay_cli(d):
 
 @bounded("C10.cli_history", ["C10"], note="history replays through the real CLI on the bundled chr9 data: a YAML with experiments A then B "
          "against a run with B alone, every output file of B compared: (1) same BAM twice, (2) single-file then two-file experiment, "
-         "(3) polyA-rich then polyA-free experiment (-d pacbio_ccs); --threads 1 (thorough: also 2); bound: these three histories")
+         "(3) polyA-rich then polyA-free experiment (-d pacbio_ccs), (4) two-file then single-file experiment, the joint run processed once more with --resume; no file missing, none extra, same contents; --threads 1 (thorough: also 2); bound: these four histories")
 def c10_cli(tier, rng):
     viol = []
     cases = 0
